@@ -242,11 +242,28 @@ def names_history(world, seed, params):
             nat = nat2
             probe('restarts')
             continue
+        race = False
+        if len(step) == 5:
+            race = step[4] == 'id-race'
+            step = step[:4]
+        elif fixed is None and step[0] in ('POST', 'PUT') and \
+                step[1].startswith('/resource_classes') and \
+                rng.random() < 0.2:
+            race = True
         m, path, ver, body = step
+        sim.match_faults = [{'verb': 'INSERT', 'table': 'resource_classes',
+                             'kind': 'dupkey-id', 'nth': 1}] if race else []
+        if race:
+            step = list(step) + ['id-race']
         if body and '%0A' in body.get('name', ''):
             body = {'name': body['name'].replace('%0A', '\n')}
         history.append(step)
-        r = sim.run_inline(lambda: world.request(m, path, body, ver)).result
+        t_ = sim.run_inline(lambda: world.request(m, path, body, ver))
+        r = t_.result
+        id_race_fired = any(kd == 'dupkey-id' for (_, kd) in t_.fired)
+        if id_race_fired:
+            probe('id_race_injected')
+        sim.match_faults = []
         out['requests'] += 1
         kind = '%s %s' % (m, '/'.join(path.split('/')[:2]))
         out['by_kind'][kind] = out['by_kind'].get(kind, 0) + 1
@@ -287,6 +304,23 @@ def names_history(world, seed, params):
             if not CUSTOM_RE.match(n_) or len(n_) > 255:
                 add('illegal-name-created', '%s %s %r -> %d created %r' % (
                     m, path, body, r.status, n_), kind)
+        if id_race_fired:
+            winner = [n_ for n_ in after_names - before_names
+                      if n_.startswith('CUSTOM_RACE_WINNER_')]
+            mine = [n_ for n_ in after_names - before_names
+                    if not n_.startswith('CUSTOM_RACE_WINNER_')]
+            existed = name in before_names
+            if existed:
+                pass    # 409/204 for an existing name is right either way
+            elif r.status not in (201, 204) or not mine:
+                add('id-race-not-retried', '%s %s lost the race for a '
+                    'class id and answered %d; created %r' % (
+                        m, path, r.status, sorted(mine)), kind)
+            elif winner and nat2['class_ids'][mine[0]] == \
+                    nat2['class_ids'][winner[0]]:
+                add('id-collision', '%s and %s share id %r' % (
+                    mine[0], winner[0], nat2['class_ids'][mine[0]]), kind)
+            before_names = before_names | set(winner)
         # creating an existing name: 204/409 (PUT) or 409 (POST), no new row
         creating = (m == 'PUT' and body is None) or m == 'POST'
         target = name
@@ -295,8 +329,9 @@ def names_history(world, seed, params):
             if r.status not in (204, 409):
                 add('re-create-status', '%s %s -> %d' % (m, path, r.status),
                     kind)
-            if nat2['class_ids'] != nat['class_ids'] or \
-                    nat2['trait_names'] != nat['trait_names']:
+            if not id_race_fired and (
+                    nat2['class_ids'] != nat['class_ids'] or
+                    nat2['trait_names'] != nat['trait_names']):
                 add('re-create-changed-rows', '%s %s -> %d' % (
                     m, path, r.status), kind)
             probe('re_create_existing')
@@ -309,8 +344,12 @@ def names_history(world, seed, params):
         for msg in inv.inv_std_present(nat2):
             add('standard-names', '%s %s -> %d: %s' % (m, path, r.status,
                                                        msg), kind)
-        if r.status >= 400 and dump.raw_core(dump.raw(world)) and \
-                names_state(nat2) != names_state(nat):
+        def _no_winner(st):
+            return {'classes': {k: v for k, v in st['classes'].items()
+                                if not k.startswith('CUSTOM_RACE_WINNER_')},
+                    'traits': st['traits']}
+        if r.status >= 400 and \
+                _no_winner(names_state(nat2)) != _no_winner(names_state(nat)):
             add('rejected-but-changed', '%s %s -> %d: %s' % (
                 m, path, r.status, '; '.join(dump.diff(
                     names_state(nat), names_state(nat2))[:4])), kind)
